@@ -85,6 +85,11 @@ def build_pool(tier):
 def settings_of(call):
     if call["api"] in ("jalali", "hijri"):
         return None
+    if "st" in call:   # explicit settings (C20's pool)
+        st = copy.deepcopy(call["st"])
+        if not call.get("nobase") and "BOGUS" not in st:
+            st["RELATIVE_BASE"] = B
+        return st
     if call["nobase"]:
         table = NOBASE_SETTINGS
         st = copy.deepcopy(table[call["si"]])
@@ -98,7 +103,7 @@ def settings_of(call):
 
 
 def inst_key(call):
-    return "%s|%s|%s" % (call["lang"], call["si"], call["nobase"])
+    return "%s|%s|%s" % (call["lang"], call.get("si", repr(sorted((call.get("st") or {}).items()))), call["nobase"])
 
 
 # ------------------------------------------------------------------ outcomes
